@@ -637,7 +637,7 @@ func poolCount(p *config.Pool) (int64, int64, int64) {
 		}
 		sz := int64(math.Pow(2, float64(b-o)))
 
-		cur := ipaddr.NewCursor([]ipaddr.Prefix{*ipaddr.NewPrefix(cidr)})
+		cur := ipaddr.NewCursor([]ipaddr.Prefix{*newPrefix(cidr)})
 		firstIP := cur.First().IP
 		lastIP := cur.Last().IP
 
@@ -711,12 +711,20 @@ func ipConfusesBuggyFirmwares(ip net.IP) bool {
 	return ip[3] == 0 || ip[3] == 255
 }
 
+// newPrefix wraps cidr without touching it: ipaddr.NewPrefix rewrites the IP
+// of the IPNet it is given to its 16-byte form, and the pools handed to the
+// allocator are the ones the pool reconciler keeps to tell whether a later
+// configuration differs from the current one.
+func newPrefix(cidr *net.IPNet) *ipaddr.Prefix {
+	return ipaddr.NewPrefix(&net.IPNet{IP: cidr.IP, Mask: cidr.Mask})
+}
+
 func (a *Allocator) getIPFromCIDR(cidr *net.IPNet, avoidBuggyIPs bool, svc string, ports []Port, sharingKey, backendKey string) net.IP {
 	sk := &key{
 		sharing: sharingKey,
 		backend: backendKey,
 	}
-	c := ipaddr.NewCursor([]ipaddr.Prefix{*ipaddr.NewPrefix(cidr)})
+	c := ipaddr.NewCursor([]ipaddr.Prefix{*newPrefix(cidr)})
 	for pos := c.First(); pos != nil; pos = c.Next() {
 		if avoidBuggyIPs && ipConfusesBuggyFirmwares(pos.IP) {
 			continue
